@@ -37,6 +37,38 @@ func checkReadyPlumbing(c *Ctx) {
 			}
 		}
 		c.check(ok, rule, "builder.Create/one-ready-channel", c.P.fnPos(fn), "", "builder.Create: "+detail)
+		// the controller's publisher is built here, over the controller's own root subscription
+		okp := false
+		for _, pa := range pathsOf(c, fn) {
+			var sub, pubArg, pubStored, subStored *Term
+			for _, e := range pa.Effects {
+				if e.Kind == "call" && e.Fn != nil && fnName(e.Fn) == "newSubscription" {
+					sub = e.Res
+				}
+				if e.Kind == "call" && e.Fn != nil && fnName(e.Fn) == "newPublisher" && len(e.Args) == 2 {
+					pubArg = e.Args[1]
+					for pubArg.K == "makeiface" || pubArg.K == "changeiface" {
+						pubArg = pubArg.A[0]
+					}
+				}
+				if e.Kind == "store" && e.Addr.K == "faddr" && e.Addr.S == "publisher" {
+					pubStored = e.Val
+				}
+				if e.Kind == "store" && e.Addr.K == "faddr" && e.Addr.S == "subscription" {
+					subStored = e.Val
+				}
+			}
+			if sub != nil && pubArg != nil && pubStored != nil && subStored != nil && sameTerm(pubArg, sub) {
+				ps := pubStored
+				for ps.K == "makeiface" || ps.K == "changeiface" {
+					ps = ps.A[0]
+				}
+				if _, isNP := isCall(ps, "newPublisher"); isNP {
+					okp = true
+				}
+			}
+		}
+		c.check(okp, "T-FLOW(builder)", "builder.Create/publisher-over-root-subscription", c.P.fnPos(fn), "", "builder.Create does not build the controller's publisher over its root subscription and store it (a publisher started later misses, or replays late, what was published before)")
 		// controller cache is built with the builder's filter
 		okf := false
 		for _, pa := range pathsOf(c, fn) {
@@ -449,6 +481,9 @@ func checkRootForwarders(c *Ctx) {
 		if ok {
 			n := 0
 			for _, e := range ps[0].Effects {
+				if (e.Kind == "call" || e.Kind == "dyncall" || e.Kind == "go" || e.Kind == "store" || e.Kind == "send") && !e.IsPure() {
+					ok = false // a forwarder does nothing but forward (no lazy construction, no bookkeeping)
+				}
 				if e.Kind == "invoke" {
 					p, okp := e.Recv.FieldPath()
 					if e.Method == f[2] && okp && strings.HasSuffix(p, "."+f[1]) {
